@@ -55,6 +55,10 @@ var c11Probes = []string{
 	"with(.[]; . = 1)", ".[] as $x | $x", ".[] as $x ireduce (0; . + $x)", "map_values(. + 1)", "to_entries | from_entries", "[paths]", "del(..)", "del(.[])", ".[] |= empty", "select(.. == 1)", "unique_by(.a)", "any_c(. == 1)", "all_c(. == 1)",
 	"contains(.)", "has(\"a\")", "has(0)", ".[] | has(0)", "@yaml", "@json", "@xml", "@props", "@sh", "@uri", "@urid", "to_xml", "from_json", "from_xml", "from_props", "from_csv", "from_tsv", "to_number", "to_string", "upcase", "trim", "split(\"\")", "join(\",\")", "sub(\"a\", \"b\")", "test(\".\")", "match(\".\")", "capture(\"(?P<x>.)\")",
 	".. | (select(kind == \"seq\") | sort)", ".. | (select(kind == \"map\") | keys)", ".. | (select(kind == \"seq\") | .[0])", ".. | select(tag == \"!!str\") | length", "[.. | select(tag == \"!!int\")] | sort", "[..] | sort", "[..] | unique", "[..] | group_by(tag)", "[..] | min", "[..] | max", "[..] | reverse | .[0]",
+	// more keys / indices asked for than the collection has entries (also on the empty one)
+	"omit([\"a\", \"b\", \"c\", \"d\", \"e\", \"f\", \"g\", \"h\", \"i\", \"j\", \"k\", \"l\"])", "{} | omit([\"a\"])", "{\"a\": 1} | omit([\"a\", \"b\", \"c\"])", "[] | omit([0])", "[1] | omit([0, 1, 2, 3])", ".[] |= omit([\"a\", \"b\", \"c\", \"d\", \"e\", \"f\"])", "{} | pick([\"a\", \"b\"])", "[] | pick([0, 1])",
+	// one element deleted twice by one del
+	"del(.[0], .[0])", "del(.a[1], .a[1])", "[1, 2] | del(.[1], .[1])", "[1, 2] | del(.[0], .[1], .[1])", "del(.e[-1], .e[-1])", "del(.d[], .d[0])", "[1] | del(.[0], .[0])", "del(.. | select(. == 1), .d[0])",
 	"omit([\"a\"])", "pick([\"a\", \"id\"])", "pick([0])", "array_to_map", ".. | alias", ".. | style", "format_datetime(\"2006\")", "to_unix", "from_unix", "tz(\"UTC\")", "eval(\".\")", "eval(.id)", "eval(.a)", "eval(.e)", ".p | eval(.)", "eval(\"eval(.a)\")", "collect", "filter(.)", "flatten(1)", "first", "kind", "is_key", "document_index", "filename", "file_index",
 	"\" \" | from_json", "\"\" | from_yaml", "\"\\n\" | from_csv", "\" \" | from_yaml", "\"\\t\" | from_props", "\" \" | @jsond", "\" \" | from_xml", "\"\" | @base64d", ".b | from_json", "[.. | select(tag == \"!!str\") | from_yaml]",
 	".a alias = \"nope\"", ".id alias = \"nope\"", ".. alias = \"x\"", ".a anchor = \"x\" | .b alias = \"x\"", ".[] alias = \"q\"", ".a alias |= \"z\"", ".c alias = \"missing\" | explode(.)",
